@@ -10,8 +10,8 @@ PROP = "C11"
 LEVEL = "exploration"
 K = 400.0     # 100 x the largest clean-tree ratio of fit residual to eps*data magnitude seen while calibrating (DESIGN C11)
 RULE = ("Hypothesis scenarios restricted to the property's domain: smooth families (LIN/SINLIN/ROSEN, optionally with "
-        "sample noise), none/box/one-sided/scaled bounds, npt in n+1..2n+1 with the default (fully initialised, coordinate) "
-        "initial set, tiny and normal budgets, soft and hard restarts, averaging. With X, R the recorded points and residual "
+        "sample noise), none/box/one-sided/scaled bounds, npt in n+1..2n+1 with a fully initialised initial set (coordinate or random, "
+        "incl. parallel evaluation; never a reduced one), regression extra steps, tiny and normal budgets, soft and hard restarts, averaging. With X, R the recorded points and residual "
         "means named by soln.jacmin_eval_nums: interpolation (npt=n+1) is checked as R_k - R_0 = J (X_k - X_0), regression as "
         "the normal equations of the centred least-squares problem, both in backward-error form in the user's coordinates; "
         "for LIN additionally J = A. Non-trivial = >=1 base shift, or scaling, or npt > n+1, or >=1 restart. Distinct = SHA-1.")
@@ -20,7 +20,8 @@ ASSUMPTIONS = ["tolerance K*eps*(1+S)*||Xc||*(sqrt(npt)*max|R| + ||Xc||*||J|| + 
                "point numbers come from the dfols log; residual at a point = mean of its recorded samples",
                "cases where no Jacobian is returned, or the point set is not fully initialised, are outside the statement"]
 
-PROF = sc.make_prof(fams=["lin", "lin", "sinlin", "rosen"], opts=False, noise_flag=False, diag=0.0, zero_resid=0.05,
+PROF = sc.make_prof(fams=["lin", "lin", "sinlin", "rosen"], opts=True, opts_list=[1, 1, 1, 2, 2, 6, 7, 9, 10, 11], noise_flag=False,
+                    diag=0.0, zero_resid=0.05,
                     maxfuns=["npt", "npt+1", 10, 30, 60, 150], bounds=["none", "box", "lower", "mixed", "scaled", "scaled"])
 
 
